@@ -893,6 +893,16 @@ impl Resolver {
             // These are already handled
             SK::EmptyStatement | SK::FromUse { .. } | SK::Use { .. } => None,
 
+            SK::Blob { .. } | SK::Enum { .. } | SK::ExternalDefinition { .. }
+                if !self.stack.is_empty() =>
+            {
+                return Err(vec![resolution_error!(
+                    self,
+                    span,
+                    "Blobs, enums and externals can only be declared at the top level"
+                )]);
+            }
+
             SK::Blob { name, variables, fields, external } => {
                 let var = self.lookup(&name.name, span)?;
                 Some(S::Blob {
